@@ -26,7 +26,7 @@ PROP = dict(
           "values x {none,+,-} x 5 mantissas), "
           "un-normalised mantissas (integer parts of up to 38 digits, 0.000..d with up to 35 leading zeros) whose exponent alone runs to "
           "+-327 while the value stays within 1e-290..1e291 (random, and enumerated: 74 mantissa scales x 11 value scales), unique "
-          "keys, empty containers anywhere, nesting up to 500; one document in 40 (C++) / one in 6 (Python) is a container of 2..5 "
+          "keys, empty containers anywhere, nesting up to 500; one document in 40 (C++; about one in 25 in Python) is a container of 2..5 "
           "strings - keys and values - with structural characters in bulk (up to 2600 of [ ] { } , : / blank, escaped quotes, escaped "
           "backslashes: runs of one element, mostly-opening mixes, uniform mixes, text that looks like nested containers; documents of "
           "1..30 KB) each ending in nothing, 1..3 escaped backslashes or an escaped quote (enumerated: 5 endings of a first string x "
